@@ -70,7 +70,7 @@ try:
             except Exception as e:  # noqa
                 failed_apply = e
                 wc = "new entry on the name of a versioned entry that is missing from disk and unknown to the transform"
-                if not (variant == "missing on disk" and is_known(wc)):
+                if True:      # (was finding F17, fixed in /repo by afb756b: reported again if it returns)
                     verdict(True, "a transform that resolve_conflicts declared conflict-free failed while being applied (partially applied tree)",
                             input=variant, witness_class=wc, observed="%s: %s; disk: %s" % (type(e).__name__, e, sorted(os.listdir(d2))))
         finally:
